@@ -275,13 +275,15 @@ def build_bytes_from_sse(event: ServerSentEvent, charset: str) -> bytes:
         # would also split at VT, FF, FS, GS, RS, NEL, LS and PS.
         data = (
             f"data: {_}".encode(charset)
-            for _ in re.split(r"\r\n|\r|\n", event.pop("data"))
+            for _ in re.split(r"\r\n|\r|\n", event["data"])
         )
     else:
         data = ()
+    # The caller's dict is not modified: the same object may be yielded again.
+    fields = [(k, v) for k, v in event.items() if k != "data"]
     return b"\n".join(
         chain(
-            map(lambda k, v: f"{k}: {v}".encode(charset), event.keys(), event.values()),
+            (f"{k}: {v}".encode(charset) for k, v in fields),
             data,
             (b"", b""),  # for generate b"\n\n"
         )
